@@ -43,10 +43,17 @@ func c06Panic(kind int) {
 		panic(error(c06Wrap{context.Canceled}))
 	case 7:
 		panic(error(c06Wrap{ErrRestartNow}))
+	case 8: // an error interface holding a nil pointer whose Error method dereferences it
+		var e *c06PtrErr
+		panic(error(e))
 	}
 }
 
-const c06Kinds = 8
+const c06Kinds = 9
+
+type c06PtrErr struct{ msg string }
+
+func (e *c06PtrErr) Error() string { return e.msg }
 
 // an error wrapping another one
 type c06Wrap struct{ err error }
